@@ -35,6 +35,9 @@ P = "ebpfcat.ethercat.Packet"
 
 
 def run(chk, repo):
+    chk.doc("R11.5", "per-packet state is per packet")
+    per_instance_rule(chk, repo, "R11.5", ["ebpfcat.ethercat.Packet", "ebpfcat.ebpfcat.SterilePacket"], "datagrams and "
+                      "recorded positions of one frame show up in another")
     chk.doc("R11.1", "layout constants equal the packed formats")
     chk.doc("R11.2", "size accounting and check-before-commit in append")
     chk.doc("R11.3", "length words, 'more' flag, frame header, padding")
